@@ -127,6 +127,54 @@ PROPS = {
         outside=['read_row (column repeats, covered cells, empty_col_repeats) and get_datatype: written against quick_xml::Reader<BufReader<ZipFile>>', 'grids larger than the shapes'],
         assumptions=['cols/rows_repeats describe the flat cell vector consistently (as parse_content builds them)'],
     ),
+    'C08': dict(
+        level_text='Bounded model checking of the eager header-row re-windowing on the real Reader methods of Xls and Ods: a workbook value holding one 2x2 sheet (concrete emptiness pattern, symbolic values) is read with HeaderRow::Row(n) for n before / at / inside / just after / far after the data and u32::MAX, and with the default option; never an error or panic, range starts exactly at n or is empty, every position at or below n keeps its value, rows above the data are Empty; option changes only store the option.',
+        hosts={'src/xls.rs': ['c08_xls.rs'], 'src/ods.rs': ['c08_ods.rs']},
+        functions=['xls::Xls::worksheet_range', 'xls::Xls::with_header_row', 'ods::Ods::worksheet_range', 'ods::Ods::with_header_row', 'Range::range', 'Range::new'],
+        bounds={'sheet': 'one sheet, 2x2 used range at origin (2,1), 4 emptiness patterns', 'header row': 'n in {0, 1, 2, 3, 4, 4e9, u32::MAX} (shape), symbolic n only for the option store'},
+        outside=['the lazy implementation in Xlsx/Xlsb::worksheet_range_ref (zip-bound generic methods)', 'larger sheets'],
+        assumptions=[],
+    ),
+    'C09': dict(
+        level_text='Bounded model checking of the real serde layer (RangeDeserializerBuilder/RangeDeserializer/RowDeserializer/DataDeserializer) on ranges of concrete shape with symbolic numeric payloads: one item per row in order with size_hint bracketing the remainder after every step, positional records without headers, CellError with the error kind and the absolute position of the failing cell without affecting other rows, the primitive conversion table, and header selection in any order / HeaderNotFound.',
+        hosts={'src/de.rs': ['c09_de.rs']},
+        functions=['de::RangeDeserializerBuilder::from_range', 'de::RangeDeserializer::new', 'de::RangeDeserializer::next', 'de::RangeDeserializer::size_hint', 'de::RowDeserializer (SeqAccess)', 'de::DataDeserializer (deserialize_i64/u8/f64/bool/option/string/any)'],
+        stubs=['alloc::fmt::format -> empty String (error texts)'],
+        bounds={'ranges': 'heights 1..=3, widths 1..=3, origins (3,2) (4,1) (0,0)', 'records': 'tuples of i64 (positional), header selection of 2 columns', 'payloads': 'symbolic i64/f64/bool'},
+        outside=['map/struct access by header name (serde derive visitors)', 'string->number parsing', 'deserialize_as_*_or_none helpers', 'ranges larger than the shapes'],
+        assumptions=[],
+    ),
+    'C11': dict(
+        level_text='Bounded model checking of the real serial-date arithmetic (feature dates): for every whole day 0..=2958465 in both date systems (one query per binade) the millisecond offset handed to chrono is exactly shim(d) days (1900 leap-bug shim, 1904 offset); time of day k/86400000 converts to exactly k ms for every k in the binades covered; durations are serial x 24h; anchors run chrono un-stubbed (1, 59, 61, 1904-0, 2958465); plain Int/Float convert like 1900-system date-times, as_date/as_time are components; non-finite and out-of-range serials give None.',
+        hosts={'src/datatype.rs': ['c11_dates.rs']},
+        features=['dates'],
+        functions=['datatype::ExcelDateTime::as_datetime', 'datatype::ExcelDateTime::as_duration', 'DataType::as_datetime/as_date/as_time for Data'],
+        stubs=['chrono::NaiveDateTime::checked_add_signed -> records the TimeDelta in ms (chrono calendar arithmetic trusted; anchors run it un-stubbed)'],
+        bounds={'whole days': 'every d in 0..=2958465: 1900 system all 17 low binades + all 45 slices of 65536 days quick; 1904 system 5 binades + 3 slices quick, all thorough', 'time of day': 'k ms on day 0: low binades (k < 65536) and 6 slices of 65536 ms (after the binades, 08:19, noon, 16:39, end of day) quick; every 16th slice thorough; the other slices are not covered',
+                'durations': 'whole days: 4 binades + 3 slices quick, all thorough'},
+        outside=['fractional serials on days other than 0 (other (d,k) combinations)', 'global monotonicity as a relational query over two f64 products (no back end terminates); only the shim boundary is posed', 'ISO string parsing paths (chrono parsers)'],
+        assumptions=[],
+    ),
+    'C15': dict(
+        level_text='Bounded model checking of the real shared-formula text rewriter (replace_cell_names -> offset_cell_name -> coordinate_to_name / column_number_to_name / get_row_column) on nine master-formula templates (relative, absolute and mixed references, area inside a function call, quoted cell-like text, function name with digits, sheet-qualified reference) for every member offset in 0..=2 x 0..=2, against the rule stated by the property; plus column_number_to_name == bijective base-26 and its inverse for every column of the sheet.',
+        hosts={'src/xlsx/mod.rs': ['c15_xlsx.rs']},
+        functions=['xlsx::replace_cell_names', 'xlsx::offset_cell_name', 'xlsx::coordinate_to_name', 'xlsx::column_number_to_name', 'xlsx::get_row_column'],
+        bounds={'templates': '9 concrete master formulas', 'offsets': 'dr, dc symbolic in 0..=2', 'column names': 'all columns 0..16383 by letter count, and rejection of every column >= 16384'},
+        outside=['the offset map built from the ref attribute and the group shapes (inline in XlsxCellReader::next_formula, XML-bound)', 'other templates / larger offsets', 'negative offsets'],
+        assumptions=[],
+    ),
+    'C06': dict(
+        level_text='Bounded model checking of slice-level parser entry points on arbitrary bytes of every length up to a small bound (xls record walkers, RecordIter, SST/BoundSheet headers; cfb decompressor, sector chains under a hostile FAT, header; xlsb cell records shorter than their fields; xlsx cell names with many digits/letters, Dimensions::len; Range::from_sparse on distant cells): Kani\'s built-in panic / index / slice / overflow / unwrap checks plus loop bounds derived from the input length decide "Ok or Err, never a panic, terminates". Genuine failures that are not repaired are listed in known_findings.json and reported as KNOWN-FINDING lines.',
+        hosts={'src/xls.rs': ['c06_xls.rs'], 'src/cfb.rs': ['c06_cfb.rs'], 'src/xlsx/mod.rs': ['c06_xlsx.rs'], 'src/xlsb/mod.rs': ['c03_xlsb.rs'], 'src/xlsb/cells_reader.rs': ['c06_cells.rs'], 'src/lib.rs': ['c06_lib.rs']},
+        select=[r'^c06_'],
+        substitutions='C03',
+        functions=['xls::parse_number/parse_rk/parse_bool_err/parse_label_sst/parse_formula_value/parse_mul_rk/parse_merge_cells/parse_dimensions/parse_xf/parse_sheet_metadata/parse_sst', 'xls::RecordIter::next',
+                   'cfb::decompress_stream', 'cfb::Sectors::get_chain', 'cfb::Header::from_reader', 'xlsb::cells_reader::XlsbCellsReader::next_cell', 'xlsx::get_row_and_optional_column', 'Dimensions::len', 'Range::from_sparse'],
+        stubs=['encoding_rs::Encoding::decode -> model_utf16_decode', 'xlsb byte source -> KSrc (as in C03)'],
+        bounds={'record bodies': 'every length 0..=N with N in 9..18 per entry point', 'FAT': '4 sectors; three concrete cycle shapes (self loop, 2-cycle, tail + 3-cycle) and a dangling id symbolic in [2, 2^32-3]', 'xlsb records': 'declared length shorter than the kind needs'},
+        outside=['zip and quick-xml internals', 'decompress_stream on arbitrary bytes (3 arbitrary bytes exceed 400 s: every byte may be a copy token)', 'open_workbook_auto trial opening', 'whole-file time/space proportionality', 'vba.rs dir-stream readers, xls/xlsb parse_formula on arbitrary tokens (not admitted yet)'],
+        assumptions=['declared counts in MergeCells/SST headers bounded by 3 / 2 so that the loop bound is finite'],
+    ),
 }
 
 # (regex on harness name, overrides). First match wins after defaults.
@@ -136,6 +184,15 @@ RULES = [
     (r'^c18_', dict(arena=64)),
     (r'^c12_', dict(arena=64)),
     (r'^c04_', dict(arena=64, timeout=300)),
+    (r'^c06_', dict(arena=64, timeout=400, mem_gb=8.0)),
+    (r'^c06_q_cfb_chain_', dict(unwind_violation=True)),
+    (r'^c06_q_xls_mul_rk', dict(arena=256)),
+    (r'^c06_q_lib_from_sparse', dict(arena=64, ignore_pointer=True)),
+    (r'^c06_q_cfb_header', dict(arena=512, fs_array=64)),
+    (r'^c15_', dict(arena=64, timeout=600, mem_gb=12.0)),
+    (r'^c11_', dict(arena=64, timeout=600, mem_gb=6.0)),
+    (r'^c09_', dict(arena=256, timeout=400, mem_gb=10.0)),
+    (r'^c08_', dict(arena=256, arena_big=2048, fs_array=256, timeout=300, mem_gb=12.0)),
     (r'^c03_', dict(arena=64)),
     (r'^c03_[qt]_fill_buffer', dict(arena=256)),
     (r'^c13_[qt]_(chain|cutoff|stream|twin)', dict(arena=64)),
